@@ -114,7 +114,7 @@ def p_c08(run):
     import whole as W
     q = run.tier == "quick"
     ck.whole_tie(run, ("native", "w32") if q else ("native", "w32", "neutral", "neutral32"),
-                 (W.QUICK_BLK if q else W.BLK_PARTS) + W.key_parts("128", q) + W.key_parts("64", q))
+                 (W.QUICK_BLK if q else W.BLK_PARTS) + W.key_parts("128", q) + W.key_parts("64", q) + W.ct_part_names(q))
     scripts = ct_scripts(run.rng, run.tier)
     wrapper = ("valgrind", "-q", "--error-exitcode=66", "--track-origins=no")
     from concurrent.futures import ThreadPoolExecutor
